@@ -19,6 +19,7 @@ package scalarDistribution
 /* -------------------------------------------------------------------------- */
 
 import   "fmt"
+import   "math"
 
 import . "github.com/pbenner/autodiff"
 import . "github.com/pbenner/autodiff/statistics"
@@ -72,6 +73,10 @@ func (dist *CategoricalDistribution) ScalarType() ScalarType {
 }
 
 func (dist *CategoricalDistribution) LogPdf(r Scalar, x ConstScalar) error {
+  if v := x.GetFloat64(); v < 0.0 || v >= float64(dist.Theta.Dim()) || math.Floor(v) != v {
+    r.SetFloat64(math.Inf(-1))
+    return nil
+  }
   r.Set(dist.Theta.At(int(x.GetFloat64())))
   return nil
 }
